@@ -38,7 +38,7 @@ type GrpcDialOptions struct {
 type AnswLogConfig struct {
 	Enabled bool   `config:"enabled"`
 	Path    string `config:"path"`
-	Filter  string `config:"filter" valid:"oneof=all warning error"`
+	Filter  string `config:"filter" validate:"omitempty,oneof=all warning error"`
 }
 
 func DefaultGunConfig() GunConfig {
